@@ -127,6 +127,21 @@ pub fn begin_run_styled(seed: u64, start_us: i64, style_seed: u64) {
     crate::vfs::begin_run(seed, None);
 }
 
+thread_local! {
+    static RAW_MODE: Cell<u8> = const { Cell::new(0) };
+}
+
+/// 0: a share of the SQLite worlds serve through servers that own the concrete storage (no wrapper
+/// in between: whatever methods the storage trait has or gains reach the real backend); 1: never
+/// (engines that inject faults at storage calls need the wrapper).
+pub fn set_raw_mode(m: u8) {
+    RAW_MODE.with(|c| c.set(m));
+}
+
+pub fn raw_for(seed: u64) -> bool {
+    RAW_MODE.with(|c| c.get()) == 0 && crate::rng::mix(&[seed, 0x4A57]) % 4 == 0
+}
+
 pub fn set_id_ctr(n: u64) {
     ID_CTR.store(n, Ordering::SeqCst);
 }
